@@ -101,6 +101,8 @@ func alphabet() []hop {
 	for p := range paths {
 		out = append(out, hop{"del", p})
 	}
+	// "replace": ONE notification deleting subtree a and updating a/b, a/c[k=v] below it
+	out = append(out, hop{"replace", 0}, hop{"replace", 1})
 	return out
 }
 
@@ -127,6 +129,9 @@ func histName(h []hop) string {
 		if o.kind == "upd" {
 			_, v := valueAt(i)
 			p = append(p, fmt.Sprintf("update(%s=%T %v)", paths[o.path].name, v, v))
+		} else if o.kind == "replace" {
+			_, v := valueAt(i)
+			p = append(p, fmt.Sprintf("replace(delete a + update %s=%T %v in one notification)", paths[o.path].name, v, v))
 		} else {
 			p = append(p, fmt.Sprintf("delete(%s)", paths[o.path].name))
 		}
@@ -145,6 +150,16 @@ func model(h []hop) map[string]string {
 		}
 		key := org + "/" + strings.Join(ps.index, "/")
 		if o.kind == "upd" {
+			_, v := valueAt(i)
+			m[key] = render(v)
+			continue
+		}
+		if o.kind == "replace" {
+			for k := range m {
+				if strings.HasPrefix(k, "openconfig/a/") {
+					delete(m, k)
+				}
+			}
 			_, v := valueAt(i)
 			m[key] = render(v)
 			continue
@@ -206,6 +221,10 @@ func (s *targetServer) Subscribe(stream pb.GNMI_SubscribeServer) error {
 		}
 		if o.kind == "upd" {
 			tv, _ := valueAt(i)
+			n.Update = []*pb.Update{{Path: ps.build(), Val: tv}}
+		} else if o.kind == "replace" {
+			tv, _ := valueAt(i)
+			n.Delete = []*pb.Path{paths[5].build()}
 			n.Update = []*pb.Update{{Path: ps.build(), Val: tv}}
 		} else {
 			n.Delete = []*pb.Path{ps.build()}
